@@ -190,9 +190,10 @@ def run_property(pid: str, tier: str, seed: int) -> int:
             known_hits.append(f"KNOWN-FINDING: property={pid} {hit['what']}")
             continue
         real_violations.append(v)
-    os.makedirs(os.path.join(HERE, "replays", pid), exist_ok=True)
+    OUT = os.environ.get("VF_OUT_DIR") or HERE  # developer sweeps over seeded changes write elsewhere
+    os.makedirs(os.path.join(OUT, "replays", pid), exist_ok=True)
     for i, v in enumerate(real_violations):
-        path = os.path.join(HERE, "replays", pid, f"violation_{i}.json")
+        path = os.path.join(OUT, "replays", pid, f"violation_{i}.json")
         json.dump({"property": pid, "obligation": v["name"], "kind": v["kind"], "contract": v.get("contract"), "clause": v.get("detail"),
                    "failing_input": v.get("input"), "solver_output": v.get("bad"), "tree": REPO}, open(path, "w"), indent=1, default=str)
         tail = "" if v.get("input") else " no-failing-input-found"
@@ -235,8 +236,8 @@ def run_property(pid: str, tier: str, seed: int) -> int:
     }
     evidence = {"property_id": pid, "tier": tier, "seed": seed, "level": level, "coverage": coverage,
                 "assumptions": coverage["trusted_base"], "wall_s": round(wall, 2), "violations": len(real_violations)}
-    os.makedirs(os.path.join(HERE, "evidence"), exist_ok=True)
-    json.dump(evidence, open(os.path.join(HERE, "evidence", f"{pid}.json"), "w"), indent=1, default=str)
+    os.makedirs(os.path.join(OUT, "evidence"), exist_ok=True)
+    json.dump(evidence, open(os.path.join(OUT, "evidence", f"{pid}.json"), "w"), indent=1, default=str)
 
     for l in known_hits:
         print(l)
